@@ -454,7 +454,17 @@ def fixed_cases():
             k += 1
             out.append({'check': check, 'mesh': mesh, 'mseed': 1000 + k, 'seed': 2000 + k, 'intorder': 3, 'tseed': 3000 + k,
                         'nterms': 2, 'elem': elem, 'basis': 'cell'})
-    for mesh, eu, ev, restricted in (('tri-struct', 'ElementTriP2', 'ElementTriP1', True), ('tet-struct', 'ElementTetP1', 'ElementTetP2', False),
+    for mesh, elem, basis in (('tri-struct', 'V:ElementTriP1', 'ifacet1'), ('quad-jiggled', 'C:ElementQuad2+ElementQuad1+ElementQuad0', 'cells'),
+                              ('tet-struct', 'C:ElementTetP2+ElementTetP1', 'facets'), ('tri-delaunay', 'C:ElementTriP2+ElementTriP1', 'ifacet1')):
+        k += 1
+        out.append({'check': 'split', 'mesh': mesh, 'mseed': 1000 + k, 'seed': 2000 + k, 'intorder': 3, 'tseed': 3000 + k, 'nterms': 1,
+                    'elem': elem, 'basis': basis})
+    for mesh, eu, ev in (('tri-struct', 'ElementTriP2', 'ElementTriP1'), ('tet-struct', 'ElementTetP1', 'ElementTetP2'), ('quad-jiggled', 'ElementQuad2', 'ElementQuad2')):
+        k += 1
+        out.append({'check': 'local', 'mesh': mesh, 'mseed': 1000 + k, 'seed': 2000 + k, 'intorder': 3, 'tseed': 3000 + k, 'nterms': 2,
+                    'eu': eu, 'ev': ev, 'facet': mesh != 'tet-struct'})
+    for mesh, eu, ev, restricted in (('tri-struct', 'V:ElementTriP1', 'ElementTriP1', False), ('tri-struct', 'ElementTriP1', 'ElementTriMorley', False),
+                                     ('tri-struct', 'ElementTriP2', 'ElementTriP1', True), ('tet-struct', 'ElementTetP1', 'ElementTetP2', False),
                                      ('quad-jiggled', 'ElementQuad1', 'ElementQuad2', True)):
         k += 1
         out.append({'check': 'compbasis', 'mesh': mesh, 'mseed': 1000 + k, 'seed': 2000 + k, 'intorder': 3, 'tseed': 3000 + k,
@@ -467,7 +477,7 @@ def run(ctx):
     warnings.simplefilter('ignore')
     rng = ctx.rng
     fixed = fixed_cases()
-    n = ctx.n(160, 1600)
+    n = ctx.n(110, 1600)
     worst = 0.0
     for c in range(n + len(fixed)):
         desc = fixed[c] if c < len(fixed) else gen_case(rng)
